@@ -211,6 +211,8 @@ impl Xerr {
 //@use corewords.fns State::load_core#w__x5eoct
 //@use corewords.fns State::load_core#w__x5ebin
 //@use corewords.fns State::load_core#w_foreach
+//@use corewords.fns State::load_core#w_include
+//@use corewords.fns State::load_core#w_require
 
 // ---- `let`: run-time helper words it compiles calls of (named only), the emitter of a native call, a tag-key constant
 #[verifier::external_body] fn core_word_tags(xs: &mut State) -> Xresult { unimplemented!() }
@@ -280,6 +282,15 @@ impl State {
 #[verifier::external_body] fn foreach_next(xs: &mut State) -> Xresult { unimplemented!() }
 //@use compile.fns ::set_fmt_base
 //@use compile.fns ::core_word_foreach
+// include / require
+pub uninterp spec fn sources_has_name(s: Seq<(Xstr, Xstr)>, name: Xstr) -> bool;
+#[verifier::external_body] fn verif_sources_has_name(s: &Vec<(Xstr, Xstr)>, name: &Xstr) -> (r: bool) ensures r == sources_has_name(s@, *name) { unimplemented!() }
+#[verifier::external_body] fn verif_xstr_from_owned(s: String) -> Xstr { unimplemented!() }
+//@use compile.fns ::filename_literal
+//@use compile.fns ::is_filename_included
+//@use compile.fns ::include_source
+//@use compile.fns ::core_word_include
+//@use compile.fns ::core_word_require
 //@use compile.fns ::enum_flow_error
 //@use compile.fns ::enum_field_default
 //@use compile.fns ::build_let_match
